@@ -295,6 +295,68 @@ func runC16(ctx *core.Ctx) {
 		}
 		cs.Flush(lc)
 	})
+	// giant tokens: single writes of 33 KiB - 300 KiB (a writer wrapper that splits or buffers large
+	// writes has its own failure handling); writer faults at every write index, per writer kind
+	ctx.Run("giant-token-write-faults", ctx.N(48, 480), func(cs *core.Case) {
+		env := NewEnv(pols[cs.Index%len(pols)])
+		r := cs.R
+		n := []int{33000, 40000, 65537, 70000, 100000, 131073, 200000, 300000}[cs.Index/len(pols)%8]
+		var in string
+		switch r.Intn(4) {
+		case 0:
+			in = "<p>" + strings.Repeat("x", n) + "</p><b>tail</b>"
+		case 1:
+			in = "<b>lead</b><!--" + strings.Repeat("c", n) + "--><b>tail</b>"
+		case 2:
+			in = `<a title="` + strings.Repeat("t", n) + `" href="http://example.org/">x</a>` + strings.Repeat("y", n/2) + "<b>tail</b>"
+		default:
+			in = strings.Repeat("&amp;z", n/6) + "<p>" + strings.Repeat("w", n) + "</p>"
+		}
+		lc := core.LocalCounts{}
+		for kind := 0; kind < 2; kind++ {
+			mkw := func(fw *faultWriter) io.Writer {
+				if kind == 0 {
+					return faultStringWriter{fw}
+				}
+				return fw
+			}
+			ref := &faultWriter{failAt: -1}
+			if err := env.Pol.SanitizeReaderToWriter(strings.NewReader(in), mkw(ref)); err != nil {
+				cs.Violate("C16:fault-free-run-errors", fmt.Sprintf("fault-free run returned %v for a %d-byte input with a giant token", err, len(in)), map[string]interface{}{"policy": spec.Describe(env.Ops), "ops": env.Ops, "input_head": core.Show(core.Clip(in, 200)), "input_length": len(in)})
+				continue
+			}
+			want := ref.accepted.String()
+			W := len(ref.events)
+			if W > 60 {
+				W = 60
+			}
+			for k := 0; k < W; k++ {
+				for mode := 0; mode < 4; mode++ {
+					fw := &faultWriter{failAt: k, mode: mode}
+					err := env.Pol.SanitizeReaderToWriter(strings.NewReader(in), mkw(fw))
+					cs.Eval()
+					lc["giant_token_writer_faults"]++
+					if len(ref.events[k].data) > 32768 {
+						lc["giant_token_writer_faults_on_a_write_over_32KiB"]++
+					}
+					modeName := []string{"permanent", "transient", "short-write", "full-write-with-error"}[mode]
+					wit := map[string]interface{}{"policy": spec.Describe(env.Ops), "ops": env.Ops, "input_head": core.Show(core.Clip(in, 200)), "input_length": len(in), "k": k, "mode": modeName, "writer_has_WriteString": kind == 0, "write_length": len(ref.events[k].data)}
+					if err == nil {
+						cs.Violate("C16:nil-error:giant:"+modeName, fmt.Sprintf("write #%d (%d bytes) failed (%s) but SanitizeReaderToWriter returned nil; %d-byte input with a giant token", k, len(ref.events[k].data), modeName, len(in)), wit)
+					}
+					if len(fw.events) > k+1 {
+						cs.Violate("C16:write-after-failure:giant:"+modeName, fmt.Sprintf("write #%d (%d bytes) failed (%s) yet %d further write calls followed; %d-byte input with a giant token", k, len(ref.events[k].data), modeName, len(fw.events)-k-1, len(in)), wit)
+					}
+					if got := fw.accepted.String(); !strings.HasPrefix(want, got) {
+						cs.Violate("C16:not-a-prefix:giant:"+modeName, fmt.Sprintf("after failing write #%d the %d accepted bytes are not a prefix of the fault-free output; %d-byte input with a giant token", k, len(got), len(in)), wit)
+					}
+				}
+			}
+		}
+		cs.Nontrivial(core.Hash("giant-w", fmt.Sprint(cs.Index)))
+		cs.Flush(lc)
+	})
+	ctx.Floor("giant_token_writer_faults_on_a_write_over_32KiB", 300)
 	// reader faults around the tokenizer's 4096-byte buffer boundaries (long inputs; only offsets near
 	// multiples of 4096 and the last bytes are faulted, writer faults are left to the short inputs)
 	ctx.Run("reader-faults-at-buffer-boundaries", ctx.N(64, 1200), func(cs *core.Case) {
